@@ -410,9 +410,9 @@ func c04race(c *Ctx) {
 	// schedules: the requester R has one park (after the lookup, before the insert); the terminator T has two parks
 	// (after the table delete, after the drain of the pid relations). Choices: order of releasing them.
 	schedules := [][]string{
-		{"R", "S", "T", "T"}, // request completes before the terminator starts
-		{"S", "R", "T", "T"}, // insert between the table delete and the drain
-		{"S", "T", "R", "T"}, // insert after the drain of the pid relations (the lost-relation window for pid targets)
+		{"R", "S", "T", "T"},      // request completes before the terminator starts
+		{"S", "R", "T", "T"},      // insert between the table delete and the drain
+		{"S", "T", "R", "T"},      // insert after the drain of the pid relations (the lost-relation window for pid targets)
 		{"S", "T", "T", "R", "T"}, // name/alias/event targets: insert right after the drain of that target's relations
 		{"S", "T", "T", "T", "R"}, // insert after the terminator finished completely
 	}
@@ -421,43 +421,51 @@ func c04race(c *Ctx) {
 	for round := 0; round < rounds; round++ {
 		for _, kind := range kinds {
 			for si, sched := range schedules {
-				res := c04raceOnce(k, kind, sched)
-				key := fmt.Sprintf("race/%s/%d", kind, si)
-				r.Case(key, si >= 1)
-				if res.stuck != "" {
-					r.Count("race.inconclusive")
-					continue
+				// the target goes away because its process is killed, or (names, aliases, events) because its owner
+				// unregisters it
+				terms := []string{"kill"}
+				if !strings.HasSuffix(kind, "-pid") {
+					terms = append(terms, "unregister")
 				}
-				r.Count("race." + res.outcome)
-				if res.linkErr == nil && !res.notified {
-					r.Violation("C04/D15-request-vs-termination", fmt.Sprintf("%s: the request returned success while the target was terminating and no notification ever arrived (schedule %v)", kind, sched),
-						map[string]interface{}{"kind": kind, "schedule": sched, "trace": res.trace})
-				}
-				if res.count > 1 {
-					r.Violation("C04/race-duplicate", fmt.Sprintf("%s: %d notifications for one relation (schedule %v)", kind, res.count, sched),
-						map[string]interface{}{"kind": kind, "schedule": sched, "trace": res.trace})
-				}
-				// model: pid kinds map exactly onto the two-thread race (T's third step is the later drains: no-op)
-				if strings.HasSuffix(kind, "-pid") && round == 0 {
-					m := "l" // the lookup happened before the requester parked
-					tsteps := 0
-					for _, s := range sched {
-						switch {
-						case s == "R":
-							m += "ll" // the release performs the insert and the re-check
-						case s == "S":
-							m += "t" // Kill runs up to the hook after the table delete
-						case tsteps < 1:
-							m += "t" // drain of the pid relations (later legs are no-ops for a pid relation)
-							tsteps++
+				for _, term := range terms {
+					res := c04raceOnce(k, kind, sched, term)
+					key := fmt.Sprintf("race/%s/%d/%s", kind, si, term)
+					r.Case(key, si >= 1)
+					if res.stuck != "" {
+						r.Count("race.inconclusive")
+						continue
+					}
+					r.Count("race." + res.outcome)
+					if res.linkErr == nil && !res.notified {
+						r.Violation("C04/D15-request-vs-termination", fmt.Sprintf("%s: the request returned success while the target was terminating and no notification ever arrived (schedule %v)", kind, sched),
+							map[string]interface{}{"kind": kind, "schedule": sched, "trace": res.trace})
+					}
+					if res.count > 1 {
+						r.Violation("C04/race-duplicate", fmt.Sprintf("%s: %d notifications for one relation (schedule %v)", kind, res.count, sched),
+							map[string]interface{}{"kind": kind, "schedule": sched, "trace": res.trace})
+					}
+					// model: pid kinds map exactly onto the two-thread race (T's third step is the later drains: no-op)
+					if strings.HasSuffix(kind, "-pid") && round == 0 {
+						m := "l" // the lookup happened before the requester parked
+						tsteps := 0
+						for _, s := range sched {
+							switch {
+							case s == "R":
+								m += "ll" // the release performs the insert and the re-check
+							case s == "S":
+								m += "t" // Kill runs up to the hook after the table delete
+							case tsteps < 1:
+								m += "t" // drain of the pid relations (later legs are no-ops for a pid relation)
+								tsteps++
+							}
 						}
+						lines = append(lines, "race g "+m)
+						ok := "doneOk"
+						if res.linkErr != nil {
+							ok = "doneErr"
+						}
+						wants = append(wants, fmt.Sprintf("l=ErgoVerif.LinkOps.Race.LPc.%s t=ErgoVerif.LinkOps.Race.TPc.done rel=false notified=%v", ok, res.notified))
 					}
-					lines = append(lines, "race g "+m)
-					ok := "doneOk"
-					if res.linkErr != nil {
-						ok = "doneErr"
-					}
-					wants = append(wants, fmt.Sprintf("l=ErgoVerif.LinkOps.Race.LPc.%s t=ErgoVerif.LinkOps.Race.TPc.done rel=false notified=%v", ok, res.notified))
 				}
 			}
 		}
@@ -506,7 +514,7 @@ type c04raceRes struct {
 	trace    []string
 }
 
-func c04raceOnce(k *K4, kind string, sched []string) c04raceRes {
+func c04raceOnce(k *K4, kind string, sched []string, term string) c04raceRes {
 	var res c04raceRes
 	ctl := NewCtl("k3-no-process")
 	defer ctl.Close()
@@ -574,12 +582,42 @@ func c04raceOnce(k *K4, kind string, sched []string) c04raceRes {
 	}
 	rname := ctl.Parked()[0].name
 	ctl.Drain()
+	tthread := "T"
 	for _, s := range sched {
-		name := "T"
+		name := tthread
 		if s == "R" {
 			name = rname
 		}
 		if s == "S" {
+			if term == "unregister" {
+				// the owner gives the identifier up in one of its callbacks: that callback's goroutine is the terminator; it
+				// parks once, right after the relations on the identifier were drained (yield point of the TargetManager wrapper)
+				k.ExecAsync(tpid, func(p *Puppet) {
+					switch v := target.(type) {
+					case gen.ProcessID:
+						p.UnregisterName()
+					case gen.Alias:
+						p.DeleteAlias(v)
+					case gen.Event:
+						p.UnregisterEvent(v.Name)
+					}
+				})
+				found := waitUntil(2*time.Second, func() bool {
+					for _, t := range ctl.Parked() {
+						if t.name != rname {
+							tthread = t.name
+							return true
+						}
+					}
+					return false
+				})
+				if !found {
+					res.stuck = "the unregistering callback did not park"
+					break
+				}
+				ctl.Drain()
+				continue
+			}
 			if _, err := ctl.Start("T", func() { k.Node.Kill(tpid) }); err != nil {
 				res.stuck = err.Error()
 				break
@@ -590,6 +628,13 @@ func c04raceOnce(k *K4, kind string, sched []string) c04raceRes {
 		if t == nil || !t.parked {
 			continue // already finished (T has only two parks when the target has fewer legs)
 		}
+		if term == "unregister" && name == tthread {
+			if _, _, _, err := ctl.StepAssumeDone(name, 20*time.Millisecond); err != nil {
+				res.stuck = err.Error()
+				break
+			}
+			continue
+		}
 		if _, _, _, err := ctl.Step(name); err != nil {
 			res.stuck = err.Error()
 			break
@@ -597,11 +642,17 @@ func c04raceOnce(k *K4, kind string, sched []string) c04raceRes {
 	}
 	// let the terminator run to its end under the controller (its later legs send the notifications)
 	for i := 0; i < 8 && res.stuck == ""; i++ {
-		t := ctl.Find("T")
+		t := ctl.Find(tthread)
 		if t == nil || !t.parked {
 			break
 		}
-		if _, _, _, err := ctl.Step("T"); err != nil {
+		if term == "unregister" {
+			if _, _, _, err := ctl.StepAssumeDone(tthread, 20*time.Millisecond); err != nil {
+				res.stuck = err.Error()
+			}
+			continue
+		}
+		if _, _, _, err := ctl.Step(tthread); err != nil {
 			res.stuck = err.Error()
 		}
 	}
@@ -613,7 +664,9 @@ func c04raceOnce(k *K4, kind string, sched []string) c04raceRes {
 		res.stuck = "request did not return"
 		return res
 	}
-	waitUntilGone(k, tpid)
+	if term == "kill" {
+		waitUntilGone(k, tpid)
+	}
 	k.Quiesce()
 	for _, e := range req.Log() {
 		if strings.HasPrefix(e.Kind, "exit") || strings.HasPrefix(e.Kind, "down") {
